@@ -143,11 +143,17 @@ func checkC18(r *Run) {
 			nDec++
 			okAll := readFrom != nil
 			res := m.resolver(recv)
+			vecsName := ""
+			if readFrom != nil {
+				if sel, isSel := unparen(readFrom.Fun).(*ast.SelectorExpr); isSel {
+					vecsName = res.str(sel.X)
+				}
+			}
 			for _, p := range s.St.Paths {
 				// either nothing was read (len(vecs) > 0 false) or the read returned a nil error
 				noRead := false
 				for k, v := range p {
-					if strings.HasPrefix(k, "len(vecs) > 0") && !v {
+					if vecsName != "" && strings.HasPrefix(k, "len("+vecsName+") > 0") && !v {
 						noRead = true
 					}
 				}
@@ -180,27 +186,115 @@ func checkC18(r *Run) {
 		}
 		r.check(nDec == 1, "r3", "recv has one decode site", recv.Decl.Pos(), "1", fmt.Sprintf("%d decode calls in recv", nDec))
 		// payload reuse only on exact length
+		// The payload vector: the variable p handed to SetPayload / appended to the vectors is, by
+		// symbolic evaluation, a fresh make([]byte, N) unless the existing buffer is non-nil and
+		// has exactly length N (N the frame's payload size), in which case it is the existing one.
 		okReuse := false
+		res3 := m.resolver(recv)
+		var pObj types.Object
+		var nText string
 		ast.Inspect(recv.Decl.Body, func(nd ast.Node) bool {
-			ifs, ok := nd.(*ast.IfStmt)
-			if !ok {
+			as, ok := nd.(*ast.AssignStmt)
+			if !ok || len(as.Lhs) != 1 || len(as.Rhs) != 1 {
 				return true
 			}
-			c := norm(ifs.Cond)
-			if strings.Contains(c, "p==nil") && strings.Contains(c, "len(p)!=int(remaining-fixedSize)") {
-				// body allocates and sets
-				b := norm(ifs.Body)
-				if strings.Contains(b, "p=make([]byte,remaining-fixedSize)") && strings.Contains(b, ".SetPayload(p)") {
-					okReuse = true
+			mk, ok := unparen(as.Rhs[0]).(*ast.CallExpr)
+			if !ok || len(mk.Args) != 2 {
+				return true
+			}
+			if id, isId := mk.Fun.(*ast.Ident); !isId || id.Name != "make" {
+				return true
+			}
+			// the variable that also holds Payload()
+			obj := objOf(info, as.Lhs[0])
+			if obj == nil {
+				return true
+			}
+			holdsPayload := false
+			ast.Inspect(recv.Decl.Body, func(n2 ast.Node) bool {
+				if a2, ok := n2.(*ast.AssignStmt); ok && len(a2.Lhs) == 1 && len(a2.Rhs) == 1 && objOf(info, a2.Lhs[0]) == obj {
+					if c, ok := unparen(a2.Rhs[0]).(*ast.CallExpr); ok && strings.HasSuffix(calleeKey(info, c), ".Payload") {
+						holdsPayload = true
+					}
 				}
+				return true
+			})
+			if holdsPayload {
+				pObj, nText = obj, nospace(res3.str(mk.Args[1]))
 			}
 			return true
 		})
+		if pObj != nil {
+			// the use: the append of p to the vectors
+			var use ast.Expr
+			ast.Inspect(recv.Decl.Body, func(nd ast.Node) bool {
+				if c, ok := nd.(*ast.CallExpr); ok && len(c.Args) == 2 {
+					if id, isId := c.Fun.(*ast.Ident); isId && id.Name == "append" && objOf(info, c.Args[1]) == pObj {
+						use = c.Args[1]
+					}
+				}
+				return true
+			})
+			if use != nil {
+				eval := func(isNil, lenEq bool) string {
+					v := valueAt(r.L, res3, recv, use, func(key string) (bool, bool) {
+						k := nospace(key)
+						switch {
+						case strings.HasSuffix(k, ".Payload()==nil"):
+							return isNil, true
+						case strings.HasPrefix(k, "len(") && (strings.HasSuffix(k, "==int("+nText+")") || strings.HasSuffix(k, "=="+nText)):
+							return lenEq, true
+						case strings.HasPrefix(k, "len(") && strings.HasSuffix(k, ">0"):
+							return true, true
+						}
+						return false, false
+					})
+					if v.undef {
+						return "unassigned"
+					}
+					return nospace(v.s)
+				}
+				fresh := "make([]byte," + nText + ")"
+				a, b2, c2, d := eval(true, false), eval(true, true), eval(false, false), eval(false, true)
+				okReuse = a == fresh && b2 == fresh && c2 == fresh && strings.HasSuffix(d, ".Payload()")
+			}
+		}
 		r.check(okReuse, "r3", "recv reuses a payload buffer only when its length matches exactly", recv.Decl.Pos(), "p == nil || len(p) != remaining-fixedSize → fresh buffer", "an existing payload buffer can be reused although its length differs from the incoming payload: stale bytes beyond (or short reads of) the new payload")
 		// appendBuffer: data[:size] or fresh
+		// the slice the decoder reads (buffer{data: X}) has exactly the requested length: X is,
+		// by symbolic evaluation, make([]byte, size) when size exceeds the pooled slice and
+		// pooled[:size] otherwise
 		okApp := false
 		ast.Inspect(recv.Decl.Body, func(nd ast.Node) bool {
-			if as, ok := nd.(*ast.AssignStmt); ok && len(as.Lhs) == 1 && norm(as.Lhs[0]) == "data" && norm(as.Rhs[0]) == "data[:size]" {
+			cl, ok := nd.(*ast.CompositeLit)
+			if !ok || len(cl.Elts) != 1 || !strings.HasSuffix(types.TypeString(info.TypeOf(cl), nil), "p9.buffer") {
+				return true
+			}
+			kv, ok := cl.Elts[0].(*ast.KeyValueExpr)
+			if !ok || norm(kv.Key) != "data" || objOf(info, kv.Value) == nil {
+				return true
+			}
+			// size: the parameter of the enclosing literal
+			lit, _ := r.L.enclosingFunc(cl).(*ast.FuncLit)
+			if lit == nil || len(lit.Type.Params.List) != 1 || len(lit.Type.Params.List[0].Names) != 1 {
+				return true
+			}
+			size := res3.nameOf(info.Defs[lit.Type.Params.List[0].Names[0]])
+			eval := func(tooSmall bool) string {
+				v := valueAt(r.L, res3, recv, kv.Value, func(key string) (bool, bool) {
+					k := nospace(key)
+					if strings.HasPrefix(k, size+">len(") {
+						return tooSmall, true
+					}
+					return false, false
+				})
+				if v.undef {
+					return "unassigned"
+				}
+				return nospace(v.s)
+			}
+			big, fits := eval(true), eval(false)
+			if big == "make([]byte,"+size+")" && strings.HasSuffix(fits, "[:"+size+"]") {
 				okApp = true
 			}
 			return true
